@@ -238,6 +238,7 @@ class SyncRunnerTemplate(BaseRunner, ABC):
         validate_map_compatible(graph)
         _validate_error_handling(error_handling)
         _validate_on_internal_override(on_internal_override)
+        _validate_on_missing(on_missing)
         select = _materialize_select(select)
 
         map_over_list = [map_over] if isinstance(map_over, str) else list(map_over)
@@ -249,7 +250,6 @@ class SyncRunnerTemplate(BaseRunner, ABC):
             # reject for the first item is rejected here, before anything is
             # emitted. (In continue mode such an item is a FAILED result; the
             # override policy itself is applied by each item's run.)
-            _validate_on_missing(on_missing)
             validate_inputs(
                 graph,
                 input_variations[0],
